@@ -30,62 +30,6 @@ func storeTarget(addr ssa.Value) string {
 	return tname(deref(addr.Type()))
 }
 
-// checkWindowCounter: the 3-letter window idiom shared by Translate and getCodonFrequency.
-// Returns the window builder term and the block executed for each complete window.
-func windowIdiom(c *Ctx, rule, who string, f *ssa.Function, tb *TermBuilder, src string) (string, *ssa.BasicBlock, bool) {
-	var wr ssa.CallInstruction
-	n := 0
-	eachInstr(f, func(i ssa.Instruction) {
-		if ci, ok := i.(ssa.CallInstruction); ok && calleeName(ci) == "(*strings.Builder).WriteRune" {
-			if tb.T(ci.Common().Args[1]).String() == "extract[2](next(range("+src+")))" {
-				wr = ci
-			}
-			n++
-		}
-	})
-	if wr == nil || n != 1 {
-		c.bad(rule, who+":window+=each letter", f.Pos(), fmt.Sprintf("expected exactly one WriteRune of each rune of %s into the window (found %d WriteRune sites)", src, n))
-		return "", nil, false
-	}
-	win := tb.T(wr.Common().Args[0]).String()
-	body := wr.Block()
-	uncond := len(body.Preds) == 1
-	if uncond {
-		_, uncond = body.Preds[0].Instrs[len(body.Preds[0].Instrs)-1].(*ssa.If)
-	}
-	c.check(uncond, rule, who+":window+=each letter", wr.Pos(), "every rune of the input is appended to the window, unconditionally, in order", "the window write is conditional")
-	// the block under Len()==3
-	var full *ssa.BasicBlock
-	wantAtom := "binop[==](call[(*strings.Builder).Len](" + win + "), const[3])"
-	for _, b := range f.Blocks {
-		if body.Dominates(b) && b != body {
-			pc := pathCond(tb, body, b)
-			if pc.String() == wantAtom {
-				if full == nil || b.Dominates(full) {
-					full = b
-				}
-			}
-		}
-	}
-	if full == nil {
-		c.bad(rule, who+":window==3", wr.Pos(), "no branch taken exactly when the window holds 3 letters")
-		return win, nil, false
-	}
-	// reset exactly once, on every path through the full-window region, nowhere else
-	nReset, okReset := 0, false
-	eachInstr(f, func(i ssa.Instruction) {
-		if ci, ok := i.(ssa.CallInstruction); ok && calleeName(ci) == "(*strings.Builder).Reset" && tb.T(ci.Common().Args[0]).String() == win {
-			nReset++
-			pc := pathCond(tb, body, ci.Block())
-			if pc.String() == wantAtom {
-				okReset = true
-			}
-		}
-	})
-	c.check(nReset == 1 && okReset, rule, who+":reset after each complete window", wr.Pos(), "the window is reset exactly when it held 3 letters (stride 3, trailing partial codon ignored)", fmt.Sprintf("%d Reset sites; reset under len==3: %v", nReset, okReset))
-	return win, full, true
-}
-
 func ruleC08(c *Ctx) {
 	c.Decided = []string{
 		"ALIAS: exported functions returning Table memory reachable from package state x functions storing through a Table argument's backing arrays must not combine (value semantics); WRITERS: complete list of functions storing into non-fresh Codon/AminoAcid/Table memory; the package-level table map is written only by its initialiser",
@@ -96,7 +40,7 @@ func ruleC08(c *Ctx) {
 	c.Trusted = []string{"strings.Builder, strings.ToUpper", "no pointer analysis: origin abstraction (fresh/param/global) over the type closure of Table"}
 	c.floor("ALIAS", 1)
 	c.floor("WRITERS", 2)
-	c.floor("TERM-COUNT", 5)
+	c.floor("TERM-COUNT", 4)
 	c.floor("SHAPE", 1)
 	w := c.W
 	sp := w.spkg("transform/codon")
@@ -172,6 +116,49 @@ func ruleC08(c *Ctx) {
 		})
 	}
 	sort.Strings(allWriters)
+	// lift writes in unexported helpers to the API functions that reach them with caller memory
+	direct := map[*ssa.Function][]mut{}
+	for _, m := range muts {
+		direct[m.f] = append(direct[m.f], m)
+	}
+	passesCallerMemory := func(e, h *ssa.Function) bool {
+		if e == h {
+			return true
+		}
+		ok := false
+		for _, g := range family(e) {
+			oa := newOriginAnalysis(g, retOf)
+			eachInstr(g, func(i ssa.Instruction) {
+				if ci, isCall := i.(ssa.CallInstruction); isCall && ci.Common().StaticCallee() == h {
+					for _, a := range callArgs(ci) {
+						if hasRefs(a.Type()) && oa.of(a)&(oParam|oGlobal|oUnknown) != 0 {
+							ok = true
+						}
+					}
+				}
+			})
+		}
+		return ok
+	}
+	var apiMuts []mut
+	for _, e := range fs {
+		if e.Object() == nil || !e.Object().Exported() {
+			continue
+		}
+		seen := map[string]bool{}
+		for _, h := range family(e) {
+			if h != e && h.Object() != nil && h.Object().Exported() {
+				continue // an exported callee is an API function of its own
+			}
+			for _, m := range direct[h] {
+				if !seen[m.target] && passesCallerMemory(e, h) {
+					seen[m.target] = true
+					apiMuts = append(apiMuts, mut{e, m.target, m.pos})
+				}
+			}
+		}
+	}
+	muts = apiMuts
 	// ALIAS pairs
 	for _, l := range leaks {
 		for _, m := range muts {
@@ -229,11 +216,14 @@ func ruleC08(c *Ctx) {
 	}
 	c.useFn(gcf)
 	c.useFn(ot)
-	tb := newTB(gcf)
-	win, full, ok := windowIdiom(c, "TERM-COUNT", "getCodonFrequency", gcf, tb, "param[0]")
-	if ok {
-		key := "call[(*strings.Builder).String](" + win + ")"
-		var problems []string
+	tb := newDeepTB(gcf)
+	poolHygiene(c, "TERM-COUNT", family(ot))
+	wi := windowModel(gcf, tb, "param[0]")
+	c.judge(wi.State, "TERM-COUNT", "getCodonFrequency:window of 3 over every letter", gcf.Pos(),
+		"every letter of the argument enters the window unconditionally; a region runs exactly at Len()==3 and resets the window; the loop leaves only at end of input", wi.Why)
+	if wi.State == holds {
+		key := wi.Key
+		st, why := unknown, "no count update found"
 		nUpd := 0
 		var m ssa.Value
 		eachInstr(gcf, func(i ssa.Instruction) {
@@ -242,53 +232,111 @@ func ruleC08(c *Ctx) {
 				return
 			}
 			nUpd++
+			if m != nil && m != mu.Map {
+				st, why = unknown, "several maps are updated"
+				return
+			}
 			m = mu.Map
-			if !full.Dominates(mu.Block()) {
-				problems = append(problems, "count updated outside the complete-window branch")
-			}
-			k, v := tb.T(mu.Key).String(), tb.T(mu.Value)
-			if k != key {
-				problems = append(problems, "count keyed by "+short(k))
-			}
-			pc := pathCond(tb, full, mu.Block())
-			hit := "extract[1](lookup[,ok](" + tb.T(mu.Map).String() + ", " + key + "))"
+			k, v := tb.T(mu.Key), tb.T(mu.Value)
+			mt := tb.T(mu.Map).String()
+			inc := "binop[+](const[1], lookup(" + mt + ", " + key + "))"
+			hit := "extract[1](lookup[,ok](" + mt + ", " + key + "))"
+			pc := pathCond(tb, wi.Write.Block(), mu.Block())
+			this := unknown
+			thisWhy := ""
 			switch {
-			case v.isConst("1") && (pc.implies(hit, true)):
-			case v.String() == "binop[+](const[1], lookup("+tb.T(mu.Map).String()+", "+key+"))":
+			case !wi.full(mu.Block()):
+				thisWhy = "count updated outside the complete-window branch"
+				if pc.Op == "true" {
+					this, thisWhy = broken, "the count is updated after every letter, not once per complete codon"
+				}
+			case k.String() != key:
+				this = stateOf(false, vocabOf(key), k)
+				thisWhy = "count keyed by " + short(k.String()) + ", want the window's content"
+			case v.String() == inc:
+				this = holds
+			case v.isConst("1") && pc.implies(hit, true):
+				this = holds
+			case v.isConst("1"):
+				this, thisWhy = broken, "the count is set to 1 although the codon may already have been counted (under "+short(pc.String())+")"
+			case v.Op == "const":
+				this, thisWhy = broken, "the count is set to the constant "+v.Name
+			case v.isBin("+") && v.Args[0].Op == "const" && v.Args[1].String() == "lookup("+mt+", "+key+")":
+				this, thisWhy = broken, "each complete window adds "+v.Args[0].Name+" to its count, want exactly 1"
 			default:
-				problems = append(problems, "count set to "+short(v.String())+" under "+short(pc.String()))
+				thisWhy = "count set to " + short(v.String()) + " under " + short(pc.String())
+			}
+			if this == broken || (this == unknown && st != broken) || (this == holds && st == unknown && nUpd == 1) {
+				st, why = this, thisWhy
 			}
 		})
-		rt, _, okR := singleReturnTerm(gcf, 0)
-		if !okR || rt.V != m {
-			problems = append(problems, "the returned map is not the one counted into")
-		}
-		c.check(len(problems) == 0 && nUpd >= 1, "TERM-COUNT", "getCodonFrequency:+1 per complete window", gcf.Pos(), "each complete 3-letter window increments its own count by exactly one", strings.Join(problems, "; "))
-	}
-	otb := newTB(ot)
-	freq := "call[poly/transform/codon.getCodonFrequency](call[strings.ToUpper](param[1]))"
-	var wstores []*ssa.Store
-	eachInstr(ot, func(i ssa.Instruction) {
-		if st, ok := i.(*ssa.Store); ok {
-			if _, _, isLocal := rootAlloc(st.Addr); !isLocal {
-				wstores = append(wstores, st)
+		if st == holds {
+			okR := false
+			for _, a := range resultAlts(tb, gcf, 0) {
+				okR = a.T.V == m
+			}
+			if !okR {
+				st, why = unknown, "the returned map is not visibly the one counted into"
 			}
 		}
-	})
-	good := len(wstores) == 1
-	why := fmt.Sprintf("%d stores through the table, want exactly the Weight store", len(wstores))
-	if good {
-		st := wstores[0]
-		a := otb.T(st.Addr).String()
-		v := otb.T(st.Val).String()
-		wantV := "lookup(" + freq + ", field[Triplet](each(field[Codons](each(field[AminoAcids](param[0]))))))"
-		okAddr := strings.HasPrefix(a, "fieldaddr[Weight](indexaddr(field[Codons](each(field[AminoAcids](param[0]))), binop[+](const[1], phi")
-		if !okAddr || v != wantV {
-			good = false
-			why = fmt.Sprintf("stores %s into %s; want Weight of every codon := freq(ToUpper(sequence))[codon.Triplet]", short(v), short(a))
+		c.judge(st, "TERM-COUNT", "getCodonFrequency:+1 per complete window", gcf.Pos(), "each complete 3-letter window increments its own count by exactly one", why)
+	}
+	// OptimizeTable: the only stores through the table are Weight := freq(ToUpper(sequence))[Triplet]
+	freq := "call[poly/transform/codon.getCodonFrequency](call[strings.ToUpper](param[1]))"
+	type wst struct {
+		f  *ssa.Function
+		st *ssa.Store
+	}
+	var wstores []wst
+	for _, f := range family(ot) {
+		if f == gcf {
+			continue
+		}
+		oa := newOriginAnalysis(f, retOf)
+		eachInstr(f, func(i ssa.Instruction) {
+			if st, ok := i.(*ssa.Store); ok {
+				if _, _, isLocal := rootAlloc(st.Addr); !isLocal && oa.of(st.Addr)&(oParam|oGlobal|oUnknown) != 0 {
+					wstores = append(wstores, wst{f, st})
+				}
+			}
+		})
+	}
+	st, why := unknown, fmt.Sprintf("%d stores through the table in OptimizeTable and its helpers; the model needs exactly the Weight store", len(wstores))
+	if len(wstores) == 1 {
+		ws := wstores[0]
+		tgt := storeTarget(ws.st.Addr)
+		if tgt != "Codon.Weight" {
+			st, why = broken, "OptimizeTable stores into "+tgt+" of the table; only Codon.Weight may change (the codon-to-amino-acid assignment must stay untouched)"
+		} else if ws.f == ot {
+			otb := newDeepTB(ot, "poly/transform/codon.getCodonFrequency")
+			a := otb.T(ws.st.Addr).String()
+			v := otb.T(ws.st.Val)
+			wantV := "lookup(" + freq + ", field[Triplet](each(field[Codons](each(field[AminoAcids](param[0]))))))"
+			okAddr := strings.HasPrefix(a, "fieldaddr[Weight](indexaddr(field[Codons](each(field[AminoAcids](param[0]))), rangeidx[")
+			switch {
+			case okAddr && v.String() == wantV:
+				st = holds
+			case okAddr && len(opaqueParts(v, vocabOf(wantV))) == 0 && localDiff(v, wantV):
+				st, why = broken, "Weight is set to "+short(v.String())+"; want freq(ToUpper(sequence))[codon.Triplet]"
+			default:
+				why = "Weight store " + short(v.String()) + " into " + short(a) + " is not in the form the rule knows"
+			}
+		} else {
+			why = "the Weight store sits in helper " + fname(ws.f)
+		}
+	} else {
+		for _, ws := range wstores {
+			if tgt := storeTarget(ws.st.Addr); tgt != "Codon.Weight" && (strings.HasPrefix(tgt, "Codon.") || strings.HasPrefix(tgt, "AminoAcid.") || strings.HasPrefix(tgt, "Table.")) {
+				st, why = broken, "OptimizeTable stores into "+tgt+" of the table; only Codon.Weight may change (the codon-to-amino-acid assignment must stay untouched)"
+			}
 		}
 	}
-	c.check(good, "TERM-COUNT", "OptimizeTable:Weight=freq(ToUpper(seq))[Triplet], nothing else written", ot.Pos(), "for every codon of every amino acid; counts are taken over the upper-cased sequence; letters and triplets untouched", why)
-	rt, _, okR := singleReturnTerm(ot, 0)
-	c.check(okR && rt.isParam(0), "TERM-COUNT", "OptimizeTable returns the re-weighted table", ot.Pos(), "returns its (re-weighted) receiver", "OptimizeTable does not return the table it re-weighted")
+	c.judge(st, "TERM-COUNT", "OptimizeTable:Weight=freq(ToUpper(seq))[Triplet], nothing else written", ot.Pos(), "for every codon of every amino acid; counts are taken over the upper-cased sequence; letters and triplets untouched", why)
+	okRet := false
+	var rts []string
+	for _, a := range resultAlts(newTB(ot), ot, 0) {
+		okRet = a.T.isParam(0)
+		rts = append(rts, short(a.T.String()))
+	}
+	c.checkShape(okRet, "TERM-COUNT", "OptimizeTable returns the re-weighted table", ot.Pos(), "returns its (re-weighted) receiver", "OptimizeTable returns "+strings.Join(rts, " | "))
 }
